@@ -42,6 +42,16 @@ impl<T> Vec<T> {
     pub fn len(&self) -> (r: usize)
         ensures r == self@.len(),
     { unimplemented!() }
+
+    #[verifier::external_body]
+    pub fn first(&self) -> (r: Option<&T>)
+        ensures self@.len() == 0 ==> r is None, self@.len() > 0 ==> r == Some(&self@[0]),
+    { unimplemented!() }
+
+    #[verifier::external_body]
+    pub fn last(&self) -> (r: Option<&T>)
+        ensures self@.len() == 0 ==> r is None, self@.len() > 0 ==> r == Some(&self@[self@.len() - 1]),
+    { unimplemented!() }
 }
 
 // v[i]
@@ -109,6 +119,9 @@ pub open spec fn sfilter<T>(s: Seq<T>, q: spec_fn(T) -> bool) -> Seq<T>
         sfilter(s.drop_first(), q)
     }
 }
+
+// every element of `s` satisfies `q`
+pub open spec fn sall<T>(s: Seq<T>, q: spec_fn(T) -> bool) -> bool { forall|i: int| 0 <= i < s.len() ==> q(#[trigger] s[i]) }
 
 // the sequence of references to the elements of `s` (what slice::Iter yields)
 pub open spec fn refs<'a, T>(s: Seq<T>) -> Seq<&'a T> { Seq::new(s.len(), |i: int| &s[i]) }
@@ -185,6 +198,13 @@ pub trait Iterator: Sized {
         ensures forall|q: spec_fn(Self::Item) -> bool|
             ((forall|t: Self::Item| #[trigger] predicate.ensures((t,), true) ==> q(t)) && (forall|t: Self::Item| #[trigger] predicate.ensures((t,), false) ==> !q(t)))
             ==> r == (#[trigger] first(old(self).items(), q) is Some);
+
+    // ::core::iter::Iterator::all
+    fn all<P: Fn(Self::Item) -> bool>(&mut self, predicate: P) -> (r: bool)
+        requires forall|t: Self::Item| #[trigger] predicate.requires((t,)),
+        ensures forall|q: spec_fn(Self::Item) -> bool|
+            ((forall|t: Self::Item| #[trigger] predicate.ensures((t,), true) ==> q(t)) && (forall|t: Self::Item| #[trigger] predicate.ensures((t,), false) ==> !q(t)))
+            ==> r == #[trigger] sall(old(self).items(), q);
 }
 
 } // verus!
@@ -209,6 +229,8 @@ macro_rules! assumed_iterator {
             fn chain<U: IntoIter<Item = Self::Item>>(self, other: U) -> (r: Chain<Self::Item>) { unimplemented!() }
             #[verifier::external_body]
             fn any<P: Fn(Self::Item) -> bool>(&mut self, predicate: P) -> (r: bool) { unimplemented!() }
+            #[verifier::external_body]
+            fn all<P: Fn(Self::Item) -> bool>(&mut self, predicate: P) -> (r: bool) { unimplemented!() }
         }
         impl<$($gen)*> IntoIter for $ty {
             type Item = $item;
